@@ -212,6 +212,8 @@ def run_property(prop, tier, seed, args):
             tail = "" if reproduced else " no-failing-input-found"
             print(f"  failed obligation: {f['obligation']} :: {f['detail'][:300]}")
             print(f"VIOLATION property={prop} replay={path}{tail}")
+        for u in undecided:
+            print(f"UNDECIDED property={prop} unit={u[0]} reason={u[1]} {u[2][:400]}")
         return 1
     if undecided:
         for u in undecided:
